@@ -6,7 +6,8 @@ import subprocess
 from . import common as C
 
 CONSTS = [("HEX", "0123456789abcdef"), ("HEXLOWER", "0123456789abcdef"), ("HEXUPPER", "0123456789ABCDEF")]
-VARNAMES = ["A", "B", "COLL", "E1", "D1", "U1"]
+# HEX / HEXUPPER: user variables and parameters that shadow a built-in constant are ordinary bindings
+VARNAMES = ["A", "B", "COLL", "E1", "D1", "U1", "HEX"]
 NAMES = ["A", "B", "COLL", "E1", "E2", "D1", "D2", "U1", "P1", "P2", "P3", "bt", "HEX", "HEXLOWER", "HEXUPPER"]
 OUTS = {"[B-mod-root]": "btroot", "[B-mod-m]": "btm", "[B-mod-k]": "btk", "[B-def]": "defv", "[B-int]": "iv", "[B-shell]": "sv"}
 
@@ -43,7 +44,7 @@ def gen(rng):
         if n not in forbidden and rng.random() < 0.3:
             owner["unexports"].append(n)
     # parameters: names may shadow variables; `$` = exported
-    pnames = rng.sample(["P1", "P2", "A", "COLL", "U1", "E1"], 2)
+    pnames = rng.sample(["P1", "P2", "A", "COLL", "U1", "E1", "HEXUPPER", "HEX"], 2)
     cfg["params"] = [{"name": pnames[0], "export": rng.random() < 0.6, "value": "arg0"},
                      {"name": pnames[1], "export": rng.random() < 0.4, "value": "arg1"},
                      {"name": "P3", "export": rng.random() < 0.5, "value": OUTS["[B-def]"]}]
